@@ -146,8 +146,7 @@ def check(ctx):
     import multiprocessing as mp
     n = ctx.n(12, 60)
     seeds = [ctx.seed * 100000 + 70000 + i for i in range(n)]
-    with mp.get_context("spawn").Pool(8) as pool:
-        res = pool.map(worker, seeds)
+    res = core.run_pool(worker, seeds, procs=8, on_dead=lambda sd: (make(sd), {"skip": "worker died"}))
     terms, kept = [], []
     nfail = 0
     for case, out in res:
